@@ -342,6 +342,9 @@ func TestWorker(t *testing.T) {
 			fmt.Fprintf(os.Stderr, "no scenario for %s\n", prop)
 			os.Exit(2)
 		}
+		if os.Getenv("VERIF_RUN_MARKERS") != "" {
+			fmt.Fprintf(os.Stderr, "#RUN %d %d %s\n", i, seedFor(base, prop, i), sc.Name)
+		}
 		res := runOne(t, sc, prop, i, seedFor(base, prop, i), nil, keepLog)
 		agg.add(&res)
 		if res.Verdict != "ok" || len(res.Prog) > 0 || os.Getenv("VERIF_ALL_RESULTS") != "" {
@@ -353,7 +356,7 @@ func TestWorker(t *testing.T) {
 		if res.Verdict == "violation" && stopOnViol {
 			break
 		}
-		if res.Verdict == "violation" {
+		if res.Verdict == "violation" && os.Getenv("VERIF_CONTINUE") == "" {
 			// a violating run may leave process-wide state behind: the driver
 			// continues the remaining indices in a fresh process
 			break
